@@ -85,6 +85,20 @@ def check(spec, ctx):
     for sec in ("bonds", "constraints"):
         for it in written["inter"].get(sec, []):
             bonds.add(tuple(it["atoms"][:2]))
+    # an applied link may also declare an edge in an [ edges ] section without giving it an interaction: that is a
+    # bond of the molecule as far as polyply is told, although no line of the file shows it
+    n_old = len(model.atoms) + len(model.removed)
+    keep = [i for i in range(1, n_old + 1) if i not in model.removed]
+    renum = {old: new for new, old in enumerate(keep, start=1)}
+    declared = 0
+    for m in model.matches:
+        for a, b, _attrs in m["spec"].get("edges", []):
+            ia, ib = renum.get(m["atoms"][a]), renum.get(m["atoms"][b])
+            if ia and ib and ia != ib and (ia, ib) not in bonds and (ib, ia) not in bonds:
+                bonds.add((ia, ib))
+                declared += 1
+    if declared:
+        ctx.label("edges_declared_without_interaction")
     dist = distances(n, bonds)
     listed = set()
     for it in written["inter"].get("exclusions", []):
